@@ -11,6 +11,7 @@ TECHNIQUE = 'runtime monitoring: history monitor on kill requests with bounded-p
 RULE = ('programs x sequences of K<=2 (thorough: sampled K=3,4) requests from {pause,play,resume,kill,cancel-future} containing a kill, at every '
         'loop-callback slot (same-slot both orders), from listener callbacks and from step functions; every live end configuration gets a '
         'probing kill; distinct by (program, plan); non-trivial when a kill was delivered to a live process')
+RULE += ('; also: kills withdrawn by their requester (cancelled future), stepping task aborted with a kill pending, two listeners acting within one deferred request, recreated processes, workchains awaiting futures / children, future-cancel twins of every kill')
 ASSUMPTIONS = ['steps complete without external stimulus (asyncio.sleep(0) yields only)', 'quiescence = empty ready queue, no timers']
 REQUIRED = ['kill_after_abort', 'kill_recreated', 'kill_workchain', 'kill_live', 'quiescent_checks', 'kill_phase/unstarted', 'kill_phase/running-step', 'kill_phase/waiting-step', 'kill_phase/paused',
             'kill_phase/pausing', 'kill_phase/listener']
